@@ -275,7 +275,9 @@ def run_impl(sc, url="ws://example.test/chat", ws_kwargs=None, check_alias=True)
     W.os = _OsProxy(W.os, key16)
     try:
         cfg = sc["cfg"]
-        ws = W.WebSocket(url, **(ws_kwargs or {}))
+        ws = sc.get("_ws_object") or W.WebSocket(sc.get("url", url), **(sc.get("ws_kwargs") or ws_kwargs or {}))
+        for h, v in sc.get("headers", ()):
+            ws.add_header(h, v)
         run.ws = ws
         kw = dict(session_class=Sess, poll=cfg["poll"] / TICK, ping_rate=cfg["ping_rate"] / TICK,
                   ping_timeout=None if cfg["ping_timeout"] is None else cfg["ping_timeout"] / TICK,
